@@ -158,6 +158,7 @@ pub fn main(args: &[String]) -> i32 {
     let mut flushes: Vec<FlushInfo> = Vec::new();
     let mut cur_val: HashMap<usize, Vec<u8>> = HashMap::new();
     let sizes = [20usize, 300, 3000, 4000, 4100, 7000, 8300];
+    let edge_pct: u32 = o.num("edges", 25u32);
     // buffer-filling burst: more than WRITE_BUFFER_SIZE entries into one shard
     let burst: usize = o.num("burst", 0);
     if burst > 0 {
@@ -189,7 +190,15 @@ pub fn main(args: &[String]) -> i32 {
             // put (plain, TTL, explicit lower/higher timestamp, ghost-embedding value)
             let use_ttl = ttl && fmt >= 2 && rng.random_range(0..4) == 0;
             let mut val: Vec<u8> = {
-                let n = sizes[rng.random_range(0..sizes.len())];
+                let mut n = sizes[rng.random_range(0..sizes.len())];
+                if edge_pct > 0 && rng.random_range(0..100) < edge_pct && key.len() < 1000 {
+                    // record sizes at a block boundary, for the header of this AND of the other formats
+                    // (v1: 22 bytes + key, v2/v3: 30 bytes + key): exact fit, one short, one over
+                    let header = [22usize, 30][rng.random_range(0..2)] + key.len();
+                    let k = rng.random_range(1..4usize);
+                    let d = [-9i64, -8, -7, -1, 0, 0, 1][rng.random_range(0..7)];
+                    n = ((k * 4096) as i64 + d - header as i64).max(1) as usize;
+                }
                 let mut v = vec![b'a' + (step % 26) as u8; n];
                 v[0] = (step % 251) as u8;
                 if n > 8 { v[1] = kid as u8; v[2] = (step / 251) as u8; }
